@@ -22,8 +22,8 @@ Section CmacSource.
     if any_err args then VErr else
     if String.eqb f "len" then match args with [VBytes b] => VInt (len b) | _ => VErr end else
     if String.eqb f "min" then match args with [VInt a; VInt b] => VInt (Z.min a b) | _ => VErr end else
-    if String.eqb f "bytes" then match args with [VInt n] => if n <? 0 then VErr else VBytes (zeros (Z.to_nat n)) | _ => VErr end else
-    if String.eqb f "bytearray" then match args with [VInt n] => if n <? 0 then VErr else VBytes (zeros (Z.to_nat n)) | _ => VErr end else
+    if String.eqb f "bytes" then match args with [VInt n] => match n with Zneg _ => VErr | _ => VBytes (zeros (Z.to_nat n)) end | _ => VErr end else
+    if String.eqb f "bytearray" then match args with [VInt n] => match n with Zneg _ => VErr | _ => VBytes (zeros (Z.to_nat n)) end | _ => VErr end else
     if String.eqb f "_xor" then match args with [VBytes a; VBytes b] => VBytes (xor_zip a b) | _ => VErr end else
     if String.eqb f "_ECB" then VStr "ecb" else
     if String.eqb f "_CBC" then VStr "cbc" else
@@ -98,11 +98,22 @@ Section CmacSource.
   Ltac py_step :=
     cbv -[Z.eqb Z.ltb Z.leb Z.add Z.sub Z.mul Z.pow Z.modulo Z.div Z.lxor Z.land Z.lor Z.shiftl Z.shiftr Z.opp
           Z.min Z.max Z.to_nat Z.of_nat len xor_zip py_slice py_splice rev app zeros be_int to_be nth hd
-          ecb cbc_encrypt shift_bytes key_k1 key_k2 max_size fst snd
+          ecb cbc_encrypt shift_bytes key_k1 key_k2 max_size fst snd repeat_bytes
           c_cache c_cache_n c_last_ct c_last_pt c_data_size c_cbc_last];
     cbn [fst snd];
     fold_consts.
   Ltac py := unfold run, call; repeat progress py_step.
+
+  Lemma py_slice_all : forall l, py_slice l 0 (len l) = l.
+  Proof.
+    intros l. change (py_slice l 0 (len l)) with (py_upto l (len l)).
+    rewrite py_upto_nonneg by apply len_nonneg. apply firstn_all2. unfold len. lia.
+  Qed.
+
+  Lemma repeat_zero : forall n, repeat_bytes n [0] = zeros n.
+  Proof. induction n; [reflexivity|]. cbn [repeat_bytes]. rewrite IHn. reflexivity. Qed.
+
+  Ltac norm := rewrite ?py_slice_all, ?repeat_zero; cbn [app].
 
   (* ---------------------------------------------------------------- digest *)
   Theorem cmac_digest_matches_source : forall s,
@@ -110,11 +121,27 @@ Section CmacSource.
     match digest E s with Some t => VBytes t | None => VErr end.
   Proof.
     intros s. unfold digest, cmac_env. destruct (c_last_pt s) as [lp|]; cbn [optv Cmac.truthy opt_bytes].
-    - Time py.
+    - py. norm.
       destruct (max_size <? c_data_size s); [reflexivity|].
       destruct (c_cache_n s =? 0); destruct (0 <? c_data_size s); destruct (len lp =? 0); reflexivity.
-    - Time py.
+    - py. norm.
       destruct (max_size <? c_data_size s); [reflexivity|].
       destruct (c_cache_n s =? 0); destruct (0 <? c_data_size s); reflexivity.
+  Qed.
+
+  (* ---------------------------------------------------------------- _update *)
+  Theorem cmac_update_aligned_matches_source : forall s data,
+    (len data mod 16 =? 0) = true ->
+    state_in (env_of (run 40 (cmac_env s) src_cmac_update_aligned_params src_cmac_update_aligned
+                          [VStr "cmac"; VBytes data]))
+             (update_aligned E s data).
+  Proof.
+    intros [cache n lct lpt ds cbcl] data Hal. unfold update_aligned, cmac_env, state_in.
+    cbn [c_cache c_cache_n c_last_ct c_last_pt c_data_size c_cbc_last].
+    destruct lpt as [lp|]; cbn [optv]; py; rewrite Hal; py;
+      destruct (len data =? 0); py;
+      try (repeat split; reflexivity);
+      destruct (cbc_encrypt E cbcl data) as [ct cbc']; cbn [fst snd];
+      destruct (len data =? 16); py; repeat split; reflexivity.
   Qed.
 End CmacSource.
